@@ -30,6 +30,7 @@ func systematicCases() []genCase {
 		sysCases = append(sysCases, famEvalOrder()...)
 		sysCases = append(sysCases, famLogicValues()...)
 		sysCases = append(sysCases, famInputTyping()...)
+		sysCases = append(sysCases, famRecursionLocals()...)
 	})
 	return sysCases
 }
@@ -385,5 +386,58 @@ func famInputTyping() []genCase {
 		out = append(out, mk("fs-alternation", fmt.Sprintf("BEGIN { FS = \"%s\" }\n{ printf \"%%d\", NF; for (i = 1; i <= NF; i++) printf \"[%%s]\", $i; print \"\"; n = split($0, A, FS); printf \"%%d\", n; for (i = 1; i <= n; i++) printf \"[%%s]\", A[i]; print \"\"; $1 = $1; print }\n", q), input))
 		out = append(out, mk("fs-alternation", fmt.Sprintf("{ n = split($0, A, \"%s\"); printf \"%%d\", n; for (i = 1; i <= n; i++) printf \"[%%s]\", A[i]; print \"\" }\n", q), input))
 	}
+	return out
+}
+
+// famRecursionLocals: a function with local arrays that is entered again while an outer activation
+// is still live (tree recursion with 1-3 children, children called from a loop, from an expression,
+// mutual recursion through a second function with its own local array). Every activation must find
+// its local arrays empty on entry and unchanged after its children return; nothing is iterated with
+// for-in, so the output is determined by the tree alone.
+func famRecursionLocals() []genCase {
+	var out []genCase
+	add := func(src string) { out = append(out, mk("recursion-locals", src+"\n", "1 a\n2 b\n")) }
+	for depth := 1; depth <= 3; depth++ {
+		for branch := 1; branch <= 3; branch++ {
+			for locals := 1; locals <= 2; locals++ {
+				decl, fill, show := "loc", `loc[tag] = n; loc["d" n] = tag`, `length(loc) ":" ((tag in loc) ? "kept" : "lost") ":" loc[tag]`
+				if locals == 2 {
+					decl = "loc, aux"
+					fill += `; aux[n] = tag; aux[n, 1] = n`
+					show += ` ":" length(aux) ":" aux[n]`
+				}
+				entry := `e = length(loc)`
+				// children called as statements
+				kids := ""
+				for b := 0; b < branch; b++ {
+					kids += fmt.Sprintf(` t(n - 1, tag "%c");`, 'L'+b)
+				}
+				add(fmt.Sprintf("function t(n, tag,   %s, e) { %s; %s; if (n > 0) {%s } printf \"%%s:%%s:%%s;\", tag, e, %s }\nBEGIN { t(%d, \"t\"); print \"\"; t(1, \"u\"); print \"\" }",
+					decl, entry, fill, kids, show, depth))
+				// children called from a loop, value returned and summed
+				add(fmt.Sprintf("function t(n, tag,   %s, e, i, s) { %s; %s; if (n > 0) for (i = 0; i < %d; i++) s += t(n - 1, tag i); printf \"%%s:%%s:%%s;\", tag, e, %s; return s + length(loc) }\nBEGIN { print t(%d, \"t\") }",
+					decl, entry, fill, branch, show, depth))
+				// children called inside one expression
+				expr := "0"
+				for b := 0; b < branch; b++ {
+					expr += fmt.Sprintf(` + t(n - 1, tag "%c")`, 'a'+b)
+				}
+				add(fmt.Sprintf("function t(n, tag,   %s, e, s) { %s; %s; if (n > 0) s = %s; return s + length(loc) * 100 + e * 10000 + ((tag in loc) ? 1 : 0) }\n{ print t(%d, $2) }",
+					decl, entry, fill, expr, depth))
+				// mutual recursion: f -> g -> f, g has its own local array
+				mk2 := ""
+				for b := 0; b < branch; b++ {
+					mk2 += fmt.Sprintf(` g(n - 1, tag "%c");`, 'x'+b)
+				}
+				add(fmt.Sprintf("function f(n, tag,   %s, e) { %s; %s; if (n > 0) {%s } printf \"f%%s:%%s:%%s;\", tag, e, %s }\nfunction g(n, tag,   mine) { mine[tag] = 1; f(n, tag \"g\"); f(n, tag \"h\"); printf \"g%%s:%%d:%%s;\", tag, length(mine), (tag in mine) }\nBEGIN { f(%d, \"t\"); print \"\" }",
+					decl, entry, fill, mk2, show, depth))
+			}
+		}
+	}
+	// a local array handed down as the child's parameter while the parent keeps another one
+	add("function w(n, arr,   own) { own[n] = n; arr[n] = n; if (n > 0) { w(n - 1, own); w(n - 1, arr) } return length(own) \":\" length(arr) }\nBEGIN { print w(3, G), length(G) }")
+	add("function w(n, arr,   own, r) { own[\"o\" n]; if (n > 0) { r = w(n - 1, own) \",\" w(n - 1, own) } return r \"[\" length(own) \"/\" length(arr) \"]\" }\nBEGIN { print w(3, G), length(G) }")
+	// delete of the whole local array in a child must not empty the parent's
+	add("function d(n,   loc) { loc[1]; loc[2]; if (n > 0) { d(n - 1); d(n - 1) } else delete loc; return length(loc) }\nBEGIN { print d(0), d(1), d(2) }")
 	return out
 }
